@@ -3,6 +3,7 @@
 from __future__ import annotations
 
 from collections.abc import Sequence as _Seq
+from types import SimpleNamespace
 from typing import Any, Callable, ClassVar, Final, Sequence, TypeAlias
 
 import numpy as np
@@ -174,7 +175,21 @@ class JnpProdPlugin(PrimitiveLeafPlugin):
             )
 
         ndim = len(x.shape)
-        out_dtype = np.dtype(dtype) if dtype is not None else np.dtype(x.dtype)
+        if dtype is not None:
+            out_dtype = np.dtype(dtype)
+        else:
+            # jnp.prod promotes bool and small integers to the default integer width
+            # (promote_integers=True), exactly like jnp.sum: ask the original for the result dtype.
+            out_dtype = np.dtype(x.dtype)
+            try:
+                orig = get_orig_impl(JnpProdPlugin._PRIM, JnpProdPlugin._FUNC_NAME)
+                out_dtype = np.dtype(
+                    jax.eval_shape(
+                        lambda v: orig(v), jax.ShapeDtypeStruct((1,), out_dtype)
+                    ).dtype
+                )
+            except RuntimeError:
+                pass
 
         if axes is None:
             axes_tuple = tuple(range(ndim))
@@ -201,6 +216,13 @@ class JnpProdPlugin(PrimitiveLeafPlugin):
         return ShapedArray(out_shape, out_dtype)
 
     def lower(self, ctx: LoweringContextProtocol, eqn: JaxprEqn) -> None:
+        params = dict(getattr(eqn, "params", {}))
+        in_dtype = np.dtype(getattr(getattr(eqn.invars[0], "aval", None), "dtype"))
+        out_dtype = np.dtype(getattr(getattr(eqn.outvars[0], "aval", None), "dtype"))
+        if params.get("dtype") is None and in_dtype != out_dtype:
+            # promoted result: take the product in the result type
+            params["dtype"] = out_dtype
+            eqn = SimpleNamespace(invars=eqn.invars, outvars=eqn.outvars, params=params)
         lower_reduction(ctx, eqn, op_type="ReduceProd", allow_dtype_param=True)
 
     @classmethod
